@@ -163,7 +163,8 @@ Fixpoint compile (a : ast) : option compiled :=
 (* ---------- the meaning of the SELECT ----------
    A "unit" is what one output row is computed from: for a summarized query a group of FROM rows
    (aggregates range over the group, other columns are read from its first row), otherwise one FROM
-   row.  Expressions are evaluated with Model/Expr.eval: ctx = the group, cur = the representative. *)
+   row together with all FROM rows that pass WHERE (what a window function ranges over).  Expressions
+   are evaluated with Model/Expr.eval: ctx = the group / the rows passing WHERE, cur = the row. *)
 Definition unit_ := (list irow * irow)%type.
 
 Definition ev (ds : sdefs) (u : unit_) (e : expr) : value := eval (fst u) (snd u) (subst ds e).
@@ -185,7 +186,7 @@ Definition units_of (base : list row) (ds : sdefs) (wh hv : list expr) (grp : li
                  | [] => [([], w)]
                  | g => group_rows (fun r => map (fun x => evd ds (mk1 r) x) g) w []
                  end)
-      else map mk1 w in
+      else let iw := index_rows w in map (fun ir => (iw, ir)) iw in      (* window functions range over all rows that pass WHERE *)
   filter (all_true ds hv) us0.
 
 Definition units (d : db) (c : compiled) : list unit_ :=
@@ -265,6 +266,26 @@ Fixpoint nodup_u (l : list uid) : bool :=
 Definition fresh (cc : compiled) (defs : list def) : bool :=
   nodup_u (def_uids defs) && forallb (fun u => negb (mem_u u (map fst (c_defs cc)))) (def_uids defs).
 
+(* every definition in scope is element-wise (no window column anywhere, hidden ones included) *)
+Definition ds_elem_b (ds : sdefs) : bool := forallb (fun d => elem (snd d)) ds.
+(* window / aggregate function nodes in a mutate: once the definitions are inlined, their arguments,
+   partition_by and arrange= expressions are element-wise (SQL has no nested window functions) *)
+Fixpoint win_ok (ds : sdefs) (e : expr) : bool :=
+  match e with
+  | ECol _ | ELit _ => true
+  | ECast e' _ => win_ok ds e'
+  | ECase cs d =>
+      forallb (fun ce => win_ok ds (fst ce) && win_ok ds (snd ce)) cs
+      && match d with Some x => win_ok ds x | None => true end
+  | EFn o args _ part arr =>
+      match op_kind o with
+      | KElem => forallb (win_ok ds) args
+      | _ => forallb elem args && forallb elem part && forallb (fun ka => elem (fst ka)) arr
+             && forallb (fun x => elem (def_of ds x))
+                        (flat_map cols args ++ flat_map cols part ++ flat_map (fun ka => cols (fst ka)) arr)
+      end
+  end.
+
 Definition is_nil {X} (l : list X) : bool := match l with [] => true | _ => false end.
 Definition no_limit (q : query) : bool := match q_limit q with None => true | Some _ => false end.
 
@@ -279,14 +300,22 @@ Fixpoint flat_ok (a : ast) : bool :=
                    | Some cc => forallb (fun u => mem_u u (q_select (c_q cc))) us
                    | None => false end
   | Mutate c defs =>
-      flat_ok c && forallb (fun d => elem (snd d)) defs
+      (* element-wise definitions anywhere; window / aggregate functions (over the rows that pass WHERE)
+         while the query is neither summarized, ordered nor limited *)
+      flat_ok c
       && match compile c with
-         | Some cc => fresh cc defs && forallb (fun d => scoped (c_scope cc) (snd d)) defs
+         | Some cc =>
+             fresh cc defs && forallb (fun d => scoped (c_scope cc) (snd d)) defs
+             && (forallb (fun d => elem (snd d)) defs
+                 || (negb (q_summ (c_q cc)) && no_limit (c_q cc) && is_nil (q_order (c_q cc))
+                     && forallb (fun d => win_ok (c_defs cc) (snd d)) defs))
          | None => false end
   | Filter c ps =>
+      (* WHERE is applied before window functions: no window column may be in scope *)
       flat_ok c && forallb elem ps
       && match compile c with
          | Some cc => no_limit (c_q cc) && is_nil (q_order (c_q cc)) && forallb (scoped (c_scope cc)) ps
+                      && (q_summ (c_q cc) || ds_elem_b (c_defs cc))
          | None => false end
   | Arrange c os =>
       flat_ok c && forallb (fun o => elem (fst o)) os && negb (is_nil os)
@@ -298,7 +327,7 @@ Fixpoint flat_ok (a : ast) : bool :=
       && match compile c with
          | Some cc =>
              let q := c_q cc in
-             no_limit q && is_nil (q_order q) && negb (q_summ q)
+             no_limit q && is_nil (q_order q) && negb (q_summ q) && ds_elem_b (c_defs cc)
              && fresh cc defs && forallb (fun d => scoped (c_scope cc) (snd d)) defs
              && forallb (fun d => forallb (fun x => mem_u x (q_part q)) (gcols (snd d))) defs
              && forallb (fun u => mem_u u (q_select q)) (q_part q)
